@@ -248,6 +248,10 @@ func (e *engine) Generate(seed uint64, idx int, tier string, avoid []harness.Fin
 			c.Arity = 2
 		}
 	}
+	if r.Pct(3) {
+		b, _ := json.Marshal(wideCase(r, c))
+		return b
+	}
 	c.Via = r.Pct(30)
 	ntasks := 1
 	if r.Pct(60) {
@@ -280,6 +284,44 @@ func (e *engine) Generate(seed uint64, idx int, tier string, avoid []harness.Fin
 	c.HoldPct = []int{0, 0, 25, 60}[r.Intn(4)]
 	b, _ := json.Marshal(c)
 	return b
+}
+
+// wideCase scripts a history around a cache-size boundary: a primary on the
+// root, calls with n distinct classes, a call that no method applies to, a
+// change of the method table, and calls with classes seen before.
+func wideCase(r *tape.Rand, c Case) Case {
+	c.World, c.Arity, c.Via = "wide", 1, false
+	n := 1 + r.Intn(wideN)
+	if r.Pct(40) {
+		n = []int{8, 16, 32, 64, 100, 128}[r.Intn(6)] + r.Intn(3) - 1 // around the sizes a bound is likely to have
+	}
+	if n > wideN {
+		n = wideN
+	}
+	ops := []Op{{K: "def", Specs: []int{wideN}, ID: 1}}
+	if r.Pct(50) {
+		ops = append(ops, Op{K: "def", Qual: "after", Specs: []int{r.Intn(4)}, ID: 2})
+	}
+	for i := 0; i < n; i++ {
+		ops = append(ops, Op{K: "call", Args: []int{i}})
+	}
+	if r.Pct(80) {
+		ops = append(ops, Op{K: "call", Args: []int{wideN}}) // nil: no applicable method
+	}
+	switch r.Intn(3) {
+	case 0:
+		ops = append(ops, Op{K: "def", Qual: "before", Specs: []int{wideN}, ID: 3})
+	case 1:
+		ops = append(ops, Op{K: "def", Specs: []int{0}, ID: 3})
+	default:
+		ops = append(ops, Op{K: "rem", Specs: []int{wideN}})
+	}
+	for _, a := range []int{0, 1, n - 1, n / 2} {
+		ops = append(ops, Op{K: "call", Args: []int{a}})
+	}
+	c.Tasks = [][]Op{ops}
+	c.Policy, c.SwitchPct, c.YieldPct, c.PCTDepth = sched.PolicyRTB, 5, 0, 1
+	return c
 }
 
 // upNonClass: the operation spells, in upper case, a built-in type that is
@@ -400,8 +442,29 @@ func worldSize(wk string) (nSpec, nArg int) {
 		return len(builtinSpecs), len(builtinVals)
 	case "lattice":
 		return len(latticeSupers), len(latticeSupers)
+	case "wide":
+		return wideN + 1, wideN
 	}
 	return nClasses, nClasses
+}
+
+// The wide world: wideN sibling classes under one root, so that a history can
+// call a generic function with more distinct argument classes than any cache
+// bound a change is likely to choose (seeded change C10-m2: a two-generation
+// cache of 64 entries whose invalidation misses the old generation after a
+// failed call). Specializer i < wideN is sibling i, wideN is the root;
+// argument wideN is nil.
+const wideN = 150
+
+const wideSfx = "-wz"
+
+var wideOnce sync.Once
+
+func wideName(sfx string, i int) string {
+	if i == wideN {
+		return "wr" + sfx
+	}
+	return fmt.Sprintf("w%d%s", i, sfx)
 }
 
 // rankW is the position of specializer spec in the class precedence list of
@@ -410,6 +473,21 @@ func rankW(wk string, spec, arg int) int {
 	switch wk {
 	case "builtin":
 		return rankIn(spec, arg)
+	case "wide":
+		switch {
+		case arg == wideN: // nil
+			if spec == -1 {
+				return 0
+			}
+			return -1
+		case spec == arg:
+			return 0
+		case spec == wideN:
+			return 1
+		case spec == -1:
+			return 3
+		}
+		return -1
 	case "lattice":
 		cpl := latticeCPL[arg]
 		if spec < 0 {
@@ -672,6 +750,7 @@ func genericFiles() map[string]bool {
 }
 
 type world struct {
+	wide    bool
 	via     bool
 	builtin bool
 	lattice bool
@@ -706,6 +785,9 @@ func (w *world) spec(i int) string {
 	}
 	if w.lattice {
 		return latticeName(w.sfx, i)
+	}
+	if w.wide {
+		return wideName(wideSfx, i)
 	}
 	return className(w.sfx, i)
 }
@@ -747,11 +829,28 @@ func newWorldRaw(arity int) *world { return newWorldKind(arity, "") }
 
 func newWorldKind(arity int, wk string) *world {
 	advNames = wk == "names"
-	w := &world{sfx: lispsim.Suffix(), scope: slip.NewScope(), builtin: wk == "builtin", lattice: wk == "lattice"}
+	w := &world{sfx: lispsim.Suffix(), scope: slip.NewScope(), builtin: wk == "builtin", lattice: wk == "lattice", wide: wk == "wide"}
 	w.gf = "gf" + w.sfx
 	var b strings.Builder
 	n := nClasses
-	if w.lattice {
+	if w.wide {
+		// the classes and their instances are made once per process: they
+		// never change, only the generic function is the case's own
+		n = 0
+		wideOnce.Do(func() {
+			var wb strings.Builder
+			fmt.Fprintf(&wb, "(defclass %s () ())\n", wideName(wideSfx, wideN))
+			for i := 0; i < wideN; i++ {
+				fmt.Fprintf(&wb, "(defclass %s (%s) ())\n(defvar i%d%s (make-instance '%s))\n", wideName(wideSfx, i), wideName(wideSfx, wideN), i, wideSfx, wideName(wideSfx, i))
+			}
+			if res := lispsim.Eval(lispsim.Read(wb.String()), slip.NewScope()); res.Cond != "" {
+				panic("c10: wide world setup failed: " + res.Msg)
+			}
+		})
+		for i := 0; i < wideN; i++ {
+			w.insts = append(w.insts, fmt.Sprintf("i%d%s", i, wideSfx))
+		}
+	} else if w.lattice {
 		n = len(latticeSupers)
 		b.WriteString(latticeDefs(w.sfx))
 	} else {
@@ -772,6 +871,9 @@ func newWorldKind(arity int, wk string) *world {
 		cn := className(w.sfx, i)
 		if w.lattice {
 			cn = latticeName(w.sfx, i)
+		}
+		if w.wide {
+			cn = wideName(w.sfx, i)
 		}
 		fmt.Fprintf(&b, "(defvar %s (make-instance '%s))\n", v, cn)
 	}
@@ -838,7 +940,7 @@ func (w *world) source(op Op) (out string) {
 			as = append(as, builtinVals[a])
 			continue
 		}
-		if a == nClasses && !w.lattice {
+		if (a == nClasses && !w.lattice && !w.wide) || (w.wide && a == wideN) {
 			as = append(as, "nil")
 			continue
 		}
